@@ -141,6 +141,7 @@ def run(ctx):
     ctx.cov["in_theorem_domain"] = in_domain
     ctx.cov["traces_validated_against_impl"] = len(meta) + len(mal)
     cross_module_tables(ctx, g, ctx.rng, 6 if ctx.quick else 120)
+    through_loaded_tables(ctx, g, cases, env)
     import codec_cases as _cc
     for _k, _v in _cc.FORMS.items():
         ctx.count("encode_value_form:" + _k, _v)
@@ -149,6 +150,91 @@ def run(ctx):
                        "for which the Coq predicate wt (premise of decode_encode) evaluates to true")
     for rec in meta[200:204]:
         ctx.sample({"type_name": rec["tn"], "value_sx": rec["vs"], "bytes": rec["enc"][1].hex() if rec["enc"][0] == "ok" else rec["enc"][1]})
+
+
+def through_loaded_tables(ctx, g, cases, env0):
+    """decode(encode(v)) = v along the route the API itself takes: the value is encoded by saving an IR and decoded, lazily, by reading
+    AuxData.data of the loaded IR.  The bytes in the file were produced under the type name the table had when it was saved; they are
+    decoded under THAT name also when `type_name` is reassigned between the load and the first read (the new name only governs how
+    the value is written next) -- a widened integer type, then a save and a second load, still gives the value."""
+    widen = [("sequence<uint8_t>", [1, 2, 250], "sequence<uint16_t>"), ("mapping<string,int32_t>", {"k": -5, "j": 7}, "mapping<string,int64_t>"),
+             ("tuple<uint8_t,int8_t>", (200, -3), "tuple<uint64_t,int64_t>"), ("set<uint16_t>", {1, 513}, "set<uint32_t>"),
+             ("variant<uint8_t,string>", g.serialization.Variant(0, 9), "variant<uint16_t,string>"), ("uint8_t", 7, "Addr")]
+    for tn, v, tn2 in widen:
+        for retype_first in (False, True):
+            ir = g.IR()
+            m = g.Module(name="m", ir=ir)
+            m.aux_data["t"] = g.AuxData(v, tn)
+            ctx.case("loaded-table:%s:%s" % (tn, retype_first), True)
+            ctx.count("loaded_table_roundtrips")
+            try:
+                buf = io.BytesIO()
+                ir.save_protobuf_file(buf)
+                t = g.IR.load_protobuf_file(io.BytesIO(buf.getvalue())).modules[0].aux_data["t"]
+                if retype_first:
+                    t.type_name = tn2
+                got = t.data
+                if not retype_first:
+                    t.type_name = tn2
+                ir2 = g.IR()
+                m2 = g.Module(name="m", ir=ir2)
+                m2.aux_data["t"] = t
+                buf2 = io.BytesIO()
+                ir2.save_protobuf_file(buf2)
+                t3 = g.IR.load_protobuf_file(io.BytesIO(buf2.getvalue())).modules[0].aux_data["t"]
+                got3, tn3 = t3.data, t3.type_name
+            except Exception as e:  # noqa: BLE001
+                ctx.add("oracle", "roundtrip", "a %s table saved, loaded, %s: %s" % (tn, "retyped to %s and then read" % tn2 if retype_first else "read and then retyped to %s" % tn2, exc_name(g, e)),
+                        {"type_name": tn, "new_type_name": tn2, "retype_first": retype_first})
+                continue
+            if got != v or type(got) is not type(v) or got3 != v or tn3 != tn2:
+                ctx.add("oracle", "roundtrip", "a %s table holding %r, saved and loaded, %s reads %r; written under %s and loaded again it reads %r (%s)"
+                        % (tn, v, "retyped to %s before the first read," % tn2 if retype_first else "read, then retyped to %s," % tn2, got, tn2, got3, tn3),
+                        {"type_name": tn, "new_type_name": tn2, "retype_first": retype_first})
+    # a sample of the generated cases along the same route (no retyping)
+    for (t, v, env) in cases[:: max(1, len(cases) // 150)]:
+        tn = type_str(t)
+        enc = impl_encode(g, v, tn)
+        if enc[0] != "ok":
+            continue
+        ir = env.ir
+        key = "zz-c07-roundtrip"
+        try:
+            ir.aux_data[key] = g.AuxData(v, tn)
+            buf = io.BytesIO()
+            ir.save_protobuf_file(buf)
+            ir2 = g.IR.load_protobuf_file(io.BytesIO(buf.getvalue()))
+            got = ir2.aux_data[key].data
+        except Exception as e:  # noqa: BLE001
+            ctx.count("loaded_table_route_skipped:" + exc_name(g, e))
+            continue
+        finally:
+            ir.aux_data.pop(key, None)
+        ctx.count("loaded_table_roundtrips")
+        # the loaded IR has node objects of its own: map them back to the original IR's by UUID, then compare canonical forms
+        def back(x):
+            if isinstance(x, g.Node):
+                return ir.get_by_uuid(x.uuid) or x
+            if isinstance(x, g.Offset):
+                return g.Offset(back(x.element_id), x.displacement)
+            if isinstance(x, g.serialization.Variant):
+                return g.serialization.Variant(x.index, back(x.val))
+            if isinstance(x, dict):
+                return {back(k): back(w) for k, w in x.items()}
+            if isinstance(x, (set, frozenset)):
+                return type(x)(back(y) for y in x)
+            if isinstance(x, list):
+                return [back(y) for y in x]
+            if isinstance(x, tuple):
+                return tuple(back(y) for y in x)
+            return x
+        try:
+            same = canon(to_sx(back(got), env)) == canon(expected_after_roundtrip(t, v, env))
+        except Exception:  # noqa: BLE001
+            same = False
+        if not same:
+            ctx.add("oracle", "roundtrip", "type %s: the value read from the table of a saved and loaded IR differs from the one stored" % tn,
+                    {"type_name": tn, "value_sx": to_sx(v, env), "loaded": repr(got)[:300]})
 
 
 def cross_module_tables(ctx, g, rng, n):
@@ -195,7 +281,23 @@ def cross_module_tables(ctx, g, rng, n):
             ctx.add("oracle", "tables:save-load-raised", "save/load of an IR with UUID/Offset tables raised %s" % exc_name(g, e), {})
             continue
         conts2 = [ir2] + list(ir2.modules)
-        attached = {x.uuid for x in nodes}
+        # entries are resolved when a table is first READ, against the IR as it is then: in two rounds of three the loaded IR is
+        # edited before anything is read (a block that tables name is detached; a block is attached under a UUID that named nothing),
+        # in one of those it is also saved first -- a save in between must not fix the tables' entries
+        mode = rd % 3
+        try:
+            if mode == 1:
+                ir2.save_protobuf_file(io.BytesIO())
+            if mode in (1, 2):
+                import content as _content
+                ir2.get_by_uuid(nodes[5].uuid).byte_interval = None
+                g.CodeBlock(size=1, offset=9, uuid=stray[0], byte_interval=ir2.get_by_uuid(nodes[3].uuid))
+                ctx.count("tables_read_after_edits:" + ("saved-first" if mode == 1 else "edited-only"))
+            import content as _content
+            attached = {x.uuid for x in _content.reach(ir2)}
+        except Exception as e:  # noqa: BLE001
+            ctx.add("oracle", "tables:save-load-raised", "editing / saving the loaded IR before its tables are read raised %s" % exc_name(g, e), {})
+            continue
         # "the decoder consumes exactly the bytes the encoder produced": what the file holds for a table is the encoding of its value
         # and nothing else (tables of very different lengths are written one after the other here)
         try:
@@ -217,7 +319,9 @@ def cross_module_tables(ctx, g, rng, n):
         def norm(x, loaded):
             """value with every UUID-ish leaf as ('node', uuid) when it must be / is a node object, ('uuid', uuid) otherwise"""
             if isinstance(x, g.Node):
-                return ("node", x.uuid.int, (ir2.get_by_uuid(x.uuid) is x) if loaded else True)
+                if loaded:
+                    return ("node", x.uuid.int, ir2.get_by_uuid(x.uuid) is x and x.uuid in attached)
+                return ("node", x.uuid.int, True) if x.uuid in attached else ("uuid", x.uuid.int, True)
             if isinstance(x, uuidlib.UUID):
                 return ("node", x.int, True) if (not loaded and x in attached) else ("uuid", x.int, True)
             if isinstance(x, g.Offset):
